@@ -106,6 +106,30 @@ def realign_record(draw, g, lm, name, rnd, tags=None, fragmented=None, max_len=5
     return line, read
 
 
+def wrap_fasta(text, width):
+    """Re-wraps an unwrapped FASTA text at `width` columns (every sequence line but the last of a record is full)."""
+    if not width:
+        return text
+    out = []
+    for l in text.split("\n"):
+        if l.startswith(">") or not l:
+            out.append(l)
+        else:
+            out += [l[i:i + width] for i in range(0, len(l), width)]
+    return "\n".join(out)
+
+
+def parse_fasta(text):
+    reads, name = {}, None
+    for l in text.split("\n"):
+        if l.startswith(">"):
+            name = l[1:].split(" ")[0]
+            reads[name] = ""
+        elif l and name is not None:
+            reads[name] += l
+    return reads
+
+
 @st.composite
 def realign_inputs(draw, min_records=1, max_records=14, max_ln=12, max_chroms=1):
     rnd = random.Random(draw(st.integers(0, 2**30)))
@@ -116,7 +140,8 @@ def realign_inputs(draw, min_records=1, max_records=14, max_ln=12, max_chroms=1)
     lm = models.LinkModel(g["links"])
     n = draw(st.integers(min_records, max_records))
     lines, fasta = [], []
-    names = ["rd%d" % i for i in range(n)]
+    style = draw(st.sampled_from(["rd%d"] * 6 + ["se\u00f1al_%d", '"q"/%d/ccs']))  # text files are UTF-8
+    names = [style % i for i in range(n)]
     rnd.shuffle(names)  # read names are not in any particular order in a GAF
     for i in range(n):
         line, read = draw(realign_record(g, lm, names[i], rnd))
@@ -125,7 +150,8 @@ def realign_inputs(draw, min_records=1, max_records=14, max_ln=12, max_chroms=1)
     ov = draw(st.integers(0, 20))
     return {"gfa": gen_graph.gfa_text(g, with_seq=True, order_seed=draw(st.integers(0, 99)),
                                       overlap_seed=ov if ov < 7 else None), "gaf": lines,
-            "fasta": "".join(fasta)}
+            # reads files are usually wrapped at 60-80 columns
+            "fasta": wrap_fasta("".join(fasta), draw(st.sampled_from([None, None, 60, 7, 3])))}
 
 
 def run_realign(case, d, platform=None, cores=None, batch=None, sub="out.gaf", gaf_name="in.gaf", gz_gaf=None,
@@ -145,6 +171,7 @@ def run_realign(case, d, platform=None, cores=None, batch=None, sub="out.gaf", g
     out = os.path.join(d, sub)
     if len(case["gaf"]) % 2 == 1 and not os.path.exists(out):
         core.write_text(out, "left over from an earlier run\n" * 3)  # -o names a file that exists: it is replaced
+    stdout_text = None
     old_mp = R.mp
     old_env = os.environ.get("GAFTOOLS_VERIF_REALIGN_BATCH")
     b = batch if batch is not None else case.get("batch")
@@ -162,6 +189,12 @@ def run_realign(case, d, platform=None, cores=None, batch=None, sub="out.gaf", g
         try:
             if via == "cli":
                 res = core.cli(["realign", gaf_path, os.path.join(d, gfa_name), fa, "-o", out, "-c", ncores])
+            elif via == "cli_stdout":
+                # without -o the records go to standard output
+                res = core.cli(["realign", gaf_path, os.path.join(d, gfa_name), fa, "-c", ncores], capture_stdout=True)
+                stdout_text = res[1] if res[0] == "ok" else None
+                if res[0] == "ok":
+                    res = ("ok", None)
             else:
                 res = core.call(R.run_realign, gaf_path, os.path.join(d, gfa_name), fa, out, ncores)
         except fakemp.Hang:
@@ -175,6 +208,8 @@ def run_realign(case, d, platform=None, cores=None, batch=None, sub="out.gaf", g
             os.environ.pop("GAFTOOLS_VERIF_REALIGN_BATCH", None)
         else:
             os.environ["GAFTOOLS_VERIF_REALIGN_BATCH"] = old_env
+    if via == "cli_stdout":
+        return res, stdout_text
     try:
         text = core.read_text(out)
     except OSError:
